@@ -56,6 +56,26 @@ CLAIMED = {
             "Exploration: observed convergence orders on finite ladders (ncomp 4..64, dt0/2^k) against sealed-cable steady state (one branch, two branches with equal and unequal compartment lengths), exact eigenmode relaxation and RC relaxation, for all schemes and backends, with an absolute error bound at the finest level that fixes the units.",
             "Bounded restatement of 'converges in the limit': order windows on a finite ladder.",
             "DESIGN.md section 4 C15"),
+    "C12": ("table-equality monitor against constituents built alone + differential simulations (alone vs assembled, sibling permutations)",
+            "Exploration: compartments with different channel sets (shared parameter names holding different values), geometry and states are assembled into branches, cells and networks; every assembled row must equal the constituent's row with absent parameters NaN and absent channels False under contiguous hierarchical indices, the channel registry must be the union; networks without synapses vs cells alone, one-branch cells vs branches, one-compartment branches vs compartments; hostile sibling relabellings (parents of later branches listed first) must only permute results.",
+            "A compartment built and edited on its own is the specification of its row.",
+            "DESIGN.md section 4 C12"),
+    "C13": ("invariant monitor after each set_ncomp + differential against direct construction (tables, 3 backends) + R5 radius profile for SWC cells",
+            "Exploration: sequences of branch(i).set_ncomp(n) on hand-built cells (per-branch properties, cell-wide and per-branch channels, whole-branch groups) and generated SWC cells: branch length/properties/channels kept, other branches and connectivity unchanged, branch membership of groups unchanged, tables and simulations (stone, thomas, sparse) equal to a cell built directly with the final counts, SWC radius profile equal to the independent interpolation at the new centres.",
+            "Refusals of set_ncomp (heterogeneous branches, single-compartment branches with channels) are counted, not judged.",
+            "DESIGN.md section 4 C13"),
+    "C16": ("reference-model monitor: independent SWC interpreter R5 over generated files",
+            "Exploration: random depth-first SWC trees (single/multi-point somata, type changes, zero-length steps, custom types, neurites from the soma start) are read with random ncomp/min_radius/max_branch_len; branches are matched to the file's sections through cell.xyzr; structure and connectivity, per-branch length, per-compartment radius, type groups, independence of ncomp and max_branch_len splitting are compared with R5. Known finding F25 reported as KNOWN-FINDING.",
+            "Conventions are those documented in docstrings/comments; the convention-free subset is what is independent.",
+            "DESIGN.md section 4 C16"),
+    "C18": ("equality + object-graph aliasing monitor over pickle/deepcopy copies of modules from random histories; independence under edits",
+            "Exploration: modules from random construction/editing histories (hand-built incl. parent-shorter-than-level cells, SWC cells with single/multi-point somata, networks with synapses, groups, trainables, clamps, after integrate / set_ncomp, views) are copied by pickle and deepcopy: tables and attributes equal, simulation and gradient bit-identical, no mutable object shared between the object graphs, editing the copy through the public API leaves the original's snapshot and simulation unchanged.",
+            "jax arrays are immutable and may be shared; jaxnodes/jaxedges caches excluded.",
+            "DESIGN.md section 4 C18"),
+    "C19": ("invariant at a hook (table invariants R6 after every accepted public mutator) + offline reference simulation R3 of the final tables; exhaustive bounded histories + random histories",
+            "Exploration with an exhaustive sub-enumeration: all histories of depth 2 (quick) / 3 (thorough) over 19 concrete operations on two fixed irregular modules, an undo family over channel pairs sharing columns, and random histories of length 4-25; after every accepted operation the tables must satisfy I1-I7, insert..delete_channel must restore the earlier tables (I8), refused operations must have no side effects, and integrate must equal the independent reference simulator rebuilt from the tables alone (1e-6).",
+            "R3 encodes jaxley's documented operator splitting; trainable values are scattered into the reference tables by their public index arrays.",
+            "DESIGN.md section 4 C19"),
     "C14": ("fixed-point and reference-model monitors on .nodes after init_states()",
             "Exploration: after init_states() on randomly built modules with partial, renamed and multiple channel insertions and per-compartment voltages (incl. singular ones) and parameters, every gate must be a fixed point of the channel's own update for dt in {0.025,1,1000}, equal R2's steady state, and nothing outside (channel rows x gate columns) may change.",
             "Trusts R2 steady states and the channel's own update_states as the definition of 'fixed point'.",
